@@ -39,6 +39,10 @@ impl KeyCampaign {
 
   pub fn generate(&self, seed: u64, thorough: bool, st: &mut GenStats) -> CaseA {
     let mut rng = Rng::new(seed);
+    // half of the quick runs are drawn with the thorough tier's bounds (up to 7 mappings, larger
+    // alphabets, histories up to 120 events, up to 6 keys held): rare multi-condition interactions
+    // are far denser there
+    let thorough = thorough || rng.chance(1, 2);
     let (layout, name, dist) = match self.source {
       Source::Shipped => {
         let mut pool: Vec<&NamedLayout> = self.shipped.iter().collect();
@@ -51,6 +55,7 @@ impl KeyCampaign {
         let o = LayoutOpts {
           weird: rng.chance(1, 4),
           related: rng.chance(1, 2),
+          dense: rng.chance(1, 4),
           absorbing: match self.absorbing { Some(b) => b, None => rng.chance(1, 2) },
           norepeat: self.force_norepeat || rng.chance(1, 2),
           special: self.force_special || rng.chance(1, 2),
